@@ -457,7 +457,7 @@ namespace R
                if( ak != 0 ) {
                   const bool is0 = ( ak == 2 || ak == 4 );
                   const int d = act_decision( I, pos, is0 ? -2 : r.pos, ak >= 3 );
-                  if( d == 1 ) r = fail();
+                  if( d == 1 && ak >= 3 ) r = fail();  // only a bool action can veto (the decision is memoised per rule and span, whatever family asks)
                   if( d == 2 ) r = { AX, 0, I, pos, r.pos, -1 };
                }
             }
